@@ -2,25 +2,6 @@
 
 package ws
 
-// recording writer
-type vRec struct{ b []byte }
-
-func (r *vRec) Write(p []byte) (int, error) { r.b = append(r.b, p...); return len(p), nil }
-
-func vHeader() Header {
-	var h Header
-	h.Fin = vBool("fin")
-	h.Rsv = vU8("rsv")
-	h.OpCode = OpCode(vU8("op"))
-	h.Masked = vBool("masked")
-	h.Mask = [4]byte{vU8("m0"), vU8("m1"), vU8("m2"), vU8("m3")}
-	h.Length = int64(vU64("len"))
-	vAssume(h.Rsv <= 7)
-	vAssume(h.OpCode <= 15)
-	vAssume(h.Length >= 0)
-	return h
-}
-
 // C01_encode_layout: WriteHeader emits exactly the RFC 6455 §5.2 layout, HeaderSize agrees.
 func C01_encode_layout() {
 	h := vHeader()
@@ -76,15 +57,6 @@ func C01_encode_layout() {
 	}
 	vAssert(b[1] == b1, "encode.byte1")
 	vTraceBytes("hdr", b)
-}
-
-func vHeaderEq(a, b Header) bool {
-	ok := vAnd(a.Fin == b.Fin, a.Rsv == b.Rsv)
-	ok = vAnd(ok, a.OpCode == b.OpCode)
-	ok = vAnd(ok, a.Masked == b.Masked)
-	ok = vAnd(ok, a.Length == b.Length)
-	ok = vAnd(ok, vImplies(a.Masked, a.Mask == b.Mask))
-	return ok
 }
 
 // C01_roundtrip_noconsume: decode(encode(h)) == h, consuming exactly HeaderSize bytes,
